@@ -13,7 +13,10 @@ for f in sorted(glob.glob(d+'/C*.json')):
             if 'not_run' in s: sc.append(f"{s['name']}: not run"); continue
             sc.append(f"{s['name']}: {s['deviation_bound_completed']}/{s['deviation_bound']}")
         scs='; '.join(sc)
+    elif 'states' in c and 'evaluations' not in c:
+        n=f"{c['states']} / {c['transitions']}"
+        scs=str(c.get('bound',''))[:200]
     else:
         n=f"{c.get('evaluations','?')} evaluations, {c.get('distinct_nontrivial','?')} distinct"
-        scs=(c.get('rule','') or '')[:160]
+        scs=(str(c.get('bound','')) or (c.get('rule','') or ''))[:200]
     print(f"| {e['property_id']} | {e['tier']} | {e['wall_s']:.0f} s | {n} | {scs} | {c.get('exhaustive')} |")
